@@ -503,6 +503,10 @@ def run(rep):
     tier, rng = rep.tier, Rng(rep.seed)
     cov = rep.cov
     broken = []
+    # translator: the poll-based read / write paths of noise/stream.rs are outside the translated subset; they are pinned by
+    # syntax hash (any change raises an alarm)
+    import rust2coq
+    translator, _gen = rust2coq.step(["pins_noise"], [], broken)
     po = common.proof_obligations(PROP_FILES)
     if not po["ok"]:
         broken.append("Coq obligations of Properties/C13.v: " + (po["log_tail"] or str(po["hygiene_problems"] or po["bad_axioms"])))
@@ -580,7 +584,7 @@ def run(rep):
             "H-AEAD: snow / ChaChaPoly enter the theorems as Section parameters enc/dec with dec n (enc n p) = Some p and |enc n p| = |p| + 16; authenticity is the premise `authentic` of C13_tamper_detected (only ciphertexts produced by the writer under nonce i decrypt under nonce i)",
             "in the correspondence the model runs a toy AEAD, the Rust side real ChaChaPoly: ciphertext bytes are not compared, only frame lengths/boundaries, inner transport calls, results and delivered plaintext",
             "scripted in-memory transport and the tampering functions exist twice (harness/src/bin/noise.rs, Model/Noise.v tamper_of)"]),
-        "theorems": po["theorems"], "axioms": po["axioms"],
+        "theorems": po["theorems"], "axioms": po["axioms"], "translator": translator,
         "evaluations": nops,
         "cases": len(cases),
         "distinct_nontrivial": len(distinct),
